@@ -1284,14 +1284,14 @@ def rotate(phi, theta, psi, ra, dec):
     cbsa = cb * sin(a)
 
     b = -sintheta * cbsa + costheta * sb
+    ay = costheta * cbsa + sintheta * sb
+    ax = cb * cos(a)
 
-    (w,) = np.where(b > 1.0)
-    if w.size > 0:
-        b[w] = 1.0
+    # arctan2 is accurate at the poles, where arcsin is not (and where
+    # roundoff can push its argument outside [-1, 1])
+    dec_out = arctan2(b, np.sqrt(ax * ax + ay * ay))
 
-    dec_out = arcsin(b)
-
-    a = arctan2(costheta * cbsa + sintheta * sb, cb * cos(a))
+    a = arctan2(ay, ax)
     ra_out = (a + psi + fourpi) % twopi
 
     rad2deg(ra_out, out=ra_out)
